@@ -133,6 +133,10 @@ impl<'a> Parser<'a> {
                         let hex: String = [self.next()?, self.next()?, self.next()?, self.next()?]
                             .iter()
                             .collect();
+                        quiet_assert(
+                            hex.chars().all(|c| c.is_ascii_hexdigit()),
+                            self.traceback(ParseError::InvalidEscapeSequence),
+                        )?;
                         let code = u16::from_str_radix(&hex, 16)
                             .map_err(|_| self.traceback(ParseError::InvalidEscapeSequence))?;
 
@@ -148,6 +152,10 @@ impl<'a> Parser<'a> {
                                 [self.next()?, self.next()?, self.next()?, self.next()?]
                                     .iter()
                                     .collect();
+                            quiet_assert(
+                                hex.chars().all(|c| c.is_ascii_hexdigit()),
+                                self.traceback(ParseError::InvalidEscapeSequence),
+                            )?;
                             let code_2 = u16::from_str_radix(&hex, 16)
                                 .map_err(|_| self.traceback(ParseError::InvalidEscapeSequence))?;
 
